@@ -17,7 +17,7 @@ The semantic property that the library is supposed to satisfy:
 Your task: make ONE small, realistic change to the library source in `{wt}/src/y0` (the kind of mistake a maintainer could plausibly make in a refactoring, an optimisation or a 'simplification': an off-by-one, a wrong set operation, a dropped case, a swapped argument, a stale variable, an early return, two cooperating sites that each look fine alone …) such that
 
   1. the library still imports and the EXISTING test suite still passes exactly as before. Run it with
-     `cd {wt} && PYTHONPATH={wt}/src /venv/bin/python -m pytest -q -p no:cacheprovider -n 8 --timeout=900 tests 2>&1 | tail -15`
+     `cd {wt} && PYTHONPATH={wt}/src /venv/bin/python -m pytest -q -p no:cacheprovider -n 4 --timeout=900 tests 2>&1 | tail -15`
      BEFORE your change (note the counts: some tests fail on the unchanged tree already; those are pre-existing and do not matter) and AFTER it: the set of passing tests must not shrink.
   2. the property above is now violated for some inputs — but NOT in a way that ordinary use would expose at once: it should need something specific to manifest (an unusual input shape such as an isolated node / a node touched only by bidirected edges / a particular size or ordering, a multi-step sequence of operations, a particular combination of arguments, or two sites that cooperate). {angle}
   3. you provide a demonstration: a small standalone Python program `{wt}/demo_seed.py` (run as `PYTHONPATH={wt}/src /venv/bin/python {wt}/demo_seed.py`) that exits 0 when the property holds on its input(s) and exits 1 (printing what went wrong) when it is violated. It must exit 1 WITH your change and exit 0 WITHOUT it (check both: use `git -C {wt} stash` / `git -C {wt} stash pop` around a run, keeping demo_seed.py untracked). The demonstration must test the property as stated (compare against the mathematical definition / an independent computation), not merely compare with the old output.
